@@ -407,6 +407,11 @@ def run_cmd(tab: T.List[T.Dict[str, T.Any]], cl: T.List[T.Dict[str, T.Any]], rnd
 # ---------------------------------------------------------------------------
 # workers
 
+def _w_pid(_: int) -> int:
+    time.sleep(0.05)
+    return os.getpid()
+
+
 def _w_files(args: T.Tuple[T.List[T.Tuple[str, T.List[T.Dict[str, T.Any]]]], int]) -> T.List[T.Dict[str, T.Any]]:
     items, sd = args
     out = []
@@ -965,7 +970,11 @@ def main(chk: Check) -> None:
                'INVARIANT SingleLaws\nINVARIANT OnlyChainTouched\nCHECK_DEADLOCK FALSE\nPOSTCONDITION EmitCases\n'
                % (('name', 'small') if quick else ('all', 'full')))
     box: T.Dict[str, T.Any] = {}
+    # All pool workers are forked here, before any thread starts a subprocess: a worker forked while another thread is inside
+    # subprocess.Popen would inherit the write end of that child's stdout pipe and the reader would never see end-of-file.
     ex = ProcessPoolExecutor(max_workers=common.NCPU)
+    if len(set(ex.map(_w_pid, range(common.NCPU * 4), chunksize=1))) < 1:
+        raise MachineryError('worker pool did not start')
 
     def replay_files(items: T.List[T.Tuple[str, T.List[T.Dict[str, T.Any]]]], spread: int) -> T.List[T.Dict[str, T.Any]]:
         cases: T.List[T.Dict[str, T.Any]] = []
